@@ -36,7 +36,7 @@ T = {
          "property-based testing (Hypothesis) with exhaustive segmentation enumeration against a reference framer"),
  "C17": ("Rule-based state machine owning the clock: trajectories up to 600 kt across NL bands, equator and antimeridian, surface/airborne toggles, noise and Comm-B traffic, gaps around the 10 s / 60 s / 180 s thresholds; after every flush: no exception, listing model, Comm-B gating and attachment, upper/lower-case table equality, stored positions vs true positions. Plus negative and very large start times, sub-second process_raw calls across the eviction threshold, a decoder without receiver position, and a replay of the repository's real reception log.",
          "CPR frames from ref/cpr.py; processes/sockets/curses of modeslive are not run; the harness owns timestamps and tnow.",
-         "stateful property-based testing (Hypothesis RuleBasedStateMachine) against a reference model"),
+         "stateful property-based testing (Hypothesis RuleBasedStateMachine) against a reference model + coverage-guided fuzzing (atheris/libFuzzer) of histories in the thorough tier"),
  "C18": ("Uplink frames built from Annex 10 layouts with the uplink AP encoder; UF11 PR x IC x CL exhaustive, UF4/5/20/21 RR x DI x structured+random SD (exhaustive per DI in the thorough tier), every UF; uplink_fields cross-checked with the single-field functions. Repeated calls and aliasing of the returned dict.",
          "uplink AP per Annex 10 3.1.2.3.3.2 in ref/crc24.py; IC for CL 5-7 and DI 2,4,5,6 unconstrained.",
          "property-based testing (Hypothesis) + field-product enumeration, encode/decode round trip"),
@@ -67,12 +67,14 @@ T = {
 }
 COMMON = (" Every run also: alternates, case by case, between the default and a hostile ambient process state (numpy trapping divide/overflow/invalid, "
           "every warning except deprecation notices as error, 3-digit decimal context, non-default numpy print options); repeats a quarter of the legs' cases in a child interpreter started with PYTHONOPTIMIZE=2 (python -OO) and another fixed hash seed; "
-          "re-evaluates earlier cases after later ones; re-runs every stored failing input of the property (replays/).")
+          "re-evaluates earlier cases after later ones; repeats one call in four with every argument passed by name in reverse order (the outcome must not depend on how arguments are passed); re-runs every stored failing input of the property (replays/).")
 EXTRA = {
  "volume": "a volume leg (one process decodes 4e4-1.1e6 distinct inputs in a row, comes back to identical inputs and their siblings after 4 100 ... 1 050 000 others, and ends with four concurrent callers)",
  "first_use": "a first-use leg (a fresh copy of the package per trial whose first calls are made by four threads at once)",
  "threads": "a concurrency leg (four callers with a 1 us switch interval)",
  "corpus": "a corpus leg (real recorded frames)",
+ "scan_order": "a scan-order leg (neighbour scans across a decision boundary made in opposite orders by two fresh copies of the package; every call's outcome must be the same in both - no reference involved)",
+ "atheris_history": "a coverage-guided libFuzzer campaign over message histories with the history oracle inside the target (thorough tier)",
 }
 import sys
 sys.path.insert(0, HERE)
@@ -93,7 +95,7 @@ for p in props:
     if os.path.exists("checks/%s.py" % pid.lower()) and pid in T:
         text, note, tech = T[pid]
         names = legs_of(pid)
-        extra = [EXTRA[k] for k in ("volume", "first_use", "threads", "corpus") if k in names]
+        extra = [EXTRA[k] for k in ("volume", "first_use", "threads", "corpus", "scan_order", "atheris_history") if k in names]
         text = text + (" Also " + "; ".join(extra) + "." if extra else "") + " Legs: " + ", ".join(names) + "." + COMMON
         checks.append({"property_id": pid, "quick_cmd": "./check %s --tier quick" % pid, "thorough_cmd": "./check %s --tier thorough" % pid,
                        "evidence_file": "evidence/%s.json" % pid, "replay_cmd_template": "./check %s --replay {path}" % pid, "engine": "pbt",
